@@ -1127,3 +1127,26 @@ pub fn all_methods_return(ctx: &mut Ctx, t: &Term) {
   }
   ctx.traces_validated += 1;
 }
+
+/// Fill the cache of a CachedSource by streaming, then stream and map again (replay from the
+/// cached map over the rope of the inner source), in every mode. Panics are reported.
+pub fn cached_replay_twice(ctx: &mut Ctx, t: &Term) {
+  ctx.evaluations += 1;
+  let obs = match Obs::new(t) {
+    Ok(o) => o,
+    Err(e) => return report_panic(ctx, t, "build", &e),
+  };
+  for round in 0..2 {
+    for columns in [true, false] {
+      for fin in [false, true] {
+        ctx.transitions += 1;
+        if let Err(e) = obs.stream(columns, fin) {
+          report_panic(ctx, t, &format!("cached stream({columns},{fin}) round {round}"), &e);
+        }
+      }
+      if let Err(e) = obs.map(columns) {
+        report_panic(ctx, t, &format!("cached map({columns}) round {round}"), &e);
+      }
+    }
+  }
+}
